@@ -1,7 +1,8 @@
-(* C15 -- serialising a program and loading it back gives the same program.  (partial: see the end of the file) *)
+(* C15 -- serialising a program and loading it back gives the same program.  (partial only in what is stated at the end) *)
 From Coq Require Import NArith ZArith List Bool String.
-From MP Require Import Model.Lexer Model.Parser Model.Serial Proofs.SerialProofs Props.C10.
+From MP Require Import Model.Lexer Gen.GenGrammar Model.Parser Model.Serial Proofs.SerialProofs Proofs.LrComplete Proofs.LexSerial Props.C10.
 Import ListNotations.
+Close Scope string_scope.
 Open Scope N_scope.
 
 (* strings: for EVERY string -- quotes, backslashes, delimiters, line breaks, tabs, any code point -- the text the
@@ -17,6 +18,29 @@ Theorem C15_integer_is_one_token : forall z rest, stops_int rest = true -> lex1 
 Proof. exact lexer_takes_int. Qed.
 Theorem C15_integer_roundtrip : forall z, int_of_lexeme (int_text z) = z.
 Proof. exact int_roundtrip. Qed.
+
+(* THE WHOLE ROUND TRIP at the level of the parsed program.  For EVERY non-empty program p -- any number of commands and
+   arguments, strings of any content, integers of any size, float texts of FLOAT shape, booleans, references, lists nested
+   to any depth, metadata dictionaries of any size -- whose names are identifiers (wfc: result, command and argument names;
+   text written unquoted: references, strings under a Result parameter, str() of other objects), the text the serialiser
+   model writes is split by the lexer model into exactly the tokens of p, the LR driver over the tables PLY generated for
+   the grammar of the snapshot accepts them, and the semantic actions return a version-3 program with the same commands in
+   the same order, the same result names, command names, argument names in order and the same values (lines erased).
+   Whatever the float oracle fs is. *)
+Theorem C15_serialise_parse : forall fs p, p <> [] -> forallb wfc p = true ->
+  exists pp, parse fs (ser_program p) = POk pp /\ pp_version pp = 3 /\ Forall2 cmd_matches p (pp_cmds pp).
+Proof. exact serialise_parse. Qed.
+(* its three stages, each for every program: the lexer on the text ... *)
+Theorem C15_text_is_the_tokens : forall p, forallb wfc p = true -> lexes (ser_program p) (tk_program p).
+Proof. exact prog_lexes. Qed.
+(* ... the LALR automaton and the semantic actions on those tokens, whatever lines and positions they carry ... *)
+Theorem C15_parser_accepts_the_tokens : forall L P fs p, p <> [] ->
+  exists T pp, lr (deco L P 0 (tk_program p)) = Some T /\ eval fs T = SOk (SProg pp) /\ pp_version pp = 3 /\ Forall2 cmd_matches p (pp_cmds pp).
+Proof. exact lr_complete. Qed.
+(* ... and what a metadata dictionary with distinct keys comes back as: its pairs, in the reverse of the written order (the
+   grammar action builds it from the right; dictionaries compare equal whatever their order) *)
+Theorem C15_metadata : forall kv, NoDup (map fst kv) -> dexp kv = rev (map pexp kv).
+Proof. exact dexp_nodup. Qed.
 
 (* non-vacuity: a program with every kind of value goes through the serialiser model and the parser model and comes back *)
 Definition ex_prog : list scmd :=
@@ -36,13 +60,20 @@ Example C15_example :
   | _ => False
   end.
 Proof. vm_compute. repeat split; reflexivity. Qed.
+Example C15_example_is_well_formed : ex_prog <> [] /\ forallb wfc ex_prog = true.
+Proof. split; [discriminate | vm_compute; reflexivity]. Qed.
 
-(* NOT proved: that for every abstract program p the composition parse (ser_program p) gives p back as a whole -- it needs
-   the completeness of the LALR automaton on the serialiser's output (see C10) -- and anything about float texts (repr() and
-   float() are oracles).  The whole composition -- to_string, from_source, cleaning, running -- is covered by the
-   correspondence: ser_program is compared with the real to_string, the parser model with the real parser on that text, and
-   the oracle compares structure, cleaned values and results of the program and of the reloaded program. *)
+(* NOT proved: anything about the float texts beyond their shape (repr() and float() are oracles: the value read back is
+   compared bit for bit by the correspondence only); what happens AFTER parsing -- cleaning the values against the
+   declared parameters (C20) and running both programs (C01/C02) -- is composed from those properties' theorems only
+   informally; programs with names that are not identifiers are outside wfc (the loader produces none; add_command accepts
+   any result name: the correspondence generates identifiers).  ser_program is tied to the real to_string character for
+   character, the parser model to the real parser on that text, and the oracle compares structure, cleaned values and
+   results of the program and of the reloaded program. *)
 Print Assumptions C15_quoted_string_is_one_token.
 Print Assumptions C15_string_roundtrip.
 Print Assumptions C15_integer_is_one_token.
 Print Assumptions C15_integer_roundtrip.
+Print Assumptions C15_serialise_parse.
+Print Assumptions C15_parser_accepts_the_tokens.
+Print Assumptions C15_metadata.
